@@ -338,6 +338,14 @@ def _poly_sign(ctx, p, ranges):
     for m in p:
         for a, e in m:
             atoms.add(a)
+    # point ranges: substitute the value
+    for a in list(atoms):
+        r = ranges.get(a)
+        if r is not None and r[0] is not None and r[0] == r[1]:
+            p = _substitute_const(p, a, Fraction(r[0]))
+            atoms.discard(a)
+    if not p:
+        return '0'
     atoms = sorted(atoms, key=repr)
     choices = []
     for a in atoms:
@@ -393,6 +401,15 @@ def _poly_sign(ctx, p, ranges):
                 return '-'
             best = best or '0-'
     return best
+
+
+def _substitute_const(p, a, value):
+    out = {}
+    for m, c in p.items():
+        e = dict(m).get(a, 0)
+        rest = tuple((x, k) for x, k in m if x != a)
+        out = p_add(out, {rest: c * (value ** e)})
+    return out
 
 
 def _substitute_shift(p, a, bound, from_hi):
